@@ -125,6 +125,9 @@ var (
 )
 
 func maskW(w uint8) uint64 {
+	if w == 0 {
+		return 1 // Bool
+	}
 	if w >= 64 {
 		return ^uint64(0)
 	}
